@@ -12,6 +12,35 @@ sys.dont_write_bytecode = True
 HERE = os.path.dirname(os.path.dirname(os.path.abspath(__file__)))
 sys.path.insert(0, HERE)
 
+def become_ordinary_user():
+    """root may open any file for writing whatever its permission bits say; the users who run a client or a server may not.  When
+    this child runs as root it gives up CAP_DAC_OVERRIDE / CAP_DAC_READ_SEARCH (everything else stays), so permission bits are
+    enforced for it as for an ordinary owner of the files."""
+    if os.geteuid() != 0:
+        return
+    try:
+        import ctypes
+
+        class Header(ctypes.Structure):
+            _fields_ = [("version", ctypes.c_uint32), ("pid", ctypes.c_int)]
+
+        class Data(ctypes.Structure):
+            _fields_ = [("effective", ctypes.c_uint32), ("permitted", ctypes.c_uint32), ("inheritable", ctypes.c_uint32)]
+        libc = ctypes.CDLL(None, use_errno=True)
+        header = Header(0x20080522, 0)  # _LINUX_CAPABILITY_VERSION_3
+        data = (Data * 2)()
+        if libc.capget(ctypes.byref(header), data) != 0:
+            return
+        keep = ~((1 << 1) | (1 << 2)) & 0xFFFFFFFF  # CAP_DAC_OVERRIDE = 1, CAP_DAC_READ_SEARCH = 2
+        data[0].effective &= keep
+        data[0].permitted &= keep
+        data[0].inheritable &= keep
+        libc.capset(ctypes.byref(header), data)
+    except Exception:
+        pass
+
+
+become_ordinary_user()
 spec = json.load(open(sys.argv[2]))
 os.environ["HOME"] = spec["home"]
 os.environ["VERIF_REPO"] = spec.get("repo", "/repo")
